@@ -305,6 +305,12 @@ def run(ctx, eng):
                'the peer\'s INITIAL_WINDOW_SIZE reaches the stream windows '
                'when its SETTINGS frame is acknowledged')
     flow.guard_increment_rule(ctx, eng)
+    cm.include(ctx, eng, 'C06',
+               lambda o: o.rule == 'FSM.cell' and isinstance(o.desc, str) and
+               '|RECV_WINDOW_UPDATE' in o.desc,
+               'the stream window is credited only when the machine reports '
+               'the update: every state in which a WINDOW_UPDATE is legal '
+               'must report it')
     ctx.assume('window = initial + credits - debits over unbounded '
                'histories follows from these clauses by induction; the '
                'induction is not mechanised')
